@@ -15,7 +15,7 @@ whenever that goroutine got to run, possibly after the subscribing call had retu
 The model has the item (`present`), the subscribing call (`ret`), the moment the `PullID` subscription is made
 (`sub`: the listener is registered and the seed taken in one step, as `Collection.onUpdate` does under the
 collection's read lock), writers (`upd` / `del`: `Collection.Update` / `Collection.Delete` of the watched item,
-which publish to the subscription only if it exists at that moment) and the steps of the subscription's pipeline
+which publish to the subscription only if it exists at that moment; `other`: any change of any other item) and the steps of the subscription's pipeline
 (`Pipe.lean`, with its PullID stage).  `missed` records a REMOVE published after the call had returned and before
 the subscription existed; `removed` a REMOVE handed to the subscription.
 -/
@@ -32,7 +32,7 @@ structure LConfig where
   p : PConfig
 
 inductive LMove
-  | ret | sub | upd (tag : Nat) | del | pipe (m : PMove)
+  | ret | sub | upd (tag : Nat) | del | other (m : Msg) | pipe (m : PMove)
 
 /-- the pipeline of a `PullID(target)` subscription at the moment it is made -/
 def LConfig.seed (c : LConfig) : List Msg :=
@@ -55,6 +55,11 @@ def lstep (c : LConfig) : LMove → Option LConfig
     else if c.subscribed then
       (pstep c.p (.push ⟨c.p.target, .remove, 0⟩)).map fun p' => { c with present := false, removed := true, p := p' }
     else some { c with present := false, missed := c.missed || c.returned }
+  | .other m =>
+    -- a write on ANOTHER item of the collection: published to the same subscription (its PullID stage skips it)
+    if m.id = c.p.target then none
+    else if c.subscribed then (pstep c.p (.push m)).map fun p' => { c with p := p' }
+    else some c
   | .pipe m =>
     match m with
     | .push _ => none            -- events reach the pipeline through `upd` / `del` only
@@ -102,6 +107,14 @@ theorem lsync_next (c : LConfig) (m : LMove) (hs : c.sync = true) :
           | false => rfl
           | true => exact absurd (h1 hr) hsub
         simp [h2, this]
+  | other x =>
+    simp only [lstep]; split
+    · exact ⟨⟨h1, h2⟩, hs⟩
+    · split
+      · cases hp : pstep c.p (.push x) with
+        | none => exact ⟨⟨h1, h2⟩, hs⟩
+        | some p' => exact ⟨⟨h1, h2⟩, hs⟩
+      · exact ⟨⟨h1, h2⟩, hs⟩
   | pipe m =>
     simp only [lstep]
     split
